@@ -51,6 +51,9 @@ class InstrumentationSetupAction(enum.IntEnum):
     COPY_SECOND_SHIFT_DOWN_THREE = enum.auto()
     """The second element of the stack is copied, and is shifted down three times."""
 
+    COPY_THIRD = enum.auto()
+    """The third element of the stack is copied."""
+
     COPY_THIRD_SHIFT_DOWN_THREE = enum.auto()
     """The third element of the stack is copied, and is shifted down three times."""
 
